@@ -21,6 +21,10 @@ LEVEL_TEXT = ("Proof (Coq): for the escape chain and separator regenerated from 
               "exactly when it has several columns, every row goes through astype(str) -> escape -> join with nothing "
               "in between, the produced column partitions the rows by tuple equality, and the key computed at predict "
               "time equals the key stored at fit time iff the tuples are equal (same function, keyword and slot). "
+              "Necessity, for every pair of distinct escape / separator characters: a chain that escapes nothing, "
+              "only one of the two, both in the other order, or the separator by another character merges two "
+              "different non-empty rows into one key (explicit witnesses), and the acceptance test chain_ok rejects "
+              "each of them. "
               "Tie to the code: translator "
               "t_merge (fail closed) + differential run of the Gallina merge against _merge_columns on all 2-column "
               "and sampled 3-column tuples over a 12-string adversarial alphabet, and partition checks through "
